@@ -114,13 +114,34 @@ def run_plan(plan, sched_seed=None, sched_replay=None):
         run.check_lost()
         world.check_loop_health()
 
-    world, run = chanload.run_channels(
-        plan, sched_seed, sched_replay, setup=setup, between=between,
-        finish=finish,
-        extra_server_opts=dict(rekey_bytes=rk['s_bytes'],
-                               rekey_seconds=rk['s_secs'] or 1 << 30),
-        extra_client_opts=dict(rekey_bytes=rk['c_bytes'],
-                               rekey_seconds=rk['c_secs'] or 1 << 30))
+    # reach probe only (not an oracle): a connection-layer packet handed to
+    # send_packet() while that endpoint's exchange is in progress is one
+    # asyncssh has to hold back until its NEWKEYS
+    import asyncssh.connection as _ac
+    orig_send = _ac.SSHConnection.send_packet
+    held = [0]
+
+    def send_packet(self, pkttype, *args, **kwargs):
+        if pkttype >= 80 and not self._kex_complete and self._session_id:
+            held[0] += 1
+
+        return orig_send(self, pkttype, *args, **kwargs)
+
+    _ac.SSHConnection.send_packet = send_packet
+
+    try:
+        world, run = chanload.run_channels(
+            plan, sched_seed, sched_replay, setup=setup, between=between,
+            finish=finish,
+            extra_server_opts=dict(rekey_bytes=rk['s_bytes'],
+                                   rekey_seconds=rk['s_secs'] or 1 << 30),
+            extra_client_opts=dict(rekey_bytes=rk['c_bytes'],
+                                   rekey_seconds=rk['c_secs'] or 1 << 30))
+    finally:
+        _ac.SSHConnection.send_packet = orig_send
+
+    if held[0]:
+        world.sim.probes['data_deferred_during_kex'] += 1
 
     sim = world.sim
 
